@@ -35,7 +35,9 @@ def _variants(prop):
         from mutants import VARIANTS
     finally:
         sys.path.pop(0)
-    return [v for v in VARIANTS if prop in v["props"]]
+    # the breaking variants only: the behaviour-preserving ones test the
+    # checker's tolerance (selftest/run.py, tools/corpus.py), not its sight
+    return [v for v in VARIANTS if prop in v["props"] and v["expect"] == "V"]
 
 
 def _one(args):
